@@ -3,9 +3,10 @@
 # takes /tmp/seedwork/<Cxx>/out/<k>/{patch.diff,demo.rs,notes.md}, confirms it (verify_seed.sh), copies it to
 # seeded/<Cxx>-s<k>/, runs the property's check (and extra ones) against it (try_seed.sh), writes meta.json.
 set -u
-id=$1; k=$2; shift; shift; extra="$@"
-src=/tmp/seedwork/$id/out/$k
-name=$id-s$k
+dir=$1; k=$2; shift; shift; extra="$@"
+id=${dir:0:3}          # property id; the directory may carry a wave tag (C03b)
+src=/tmp/seedwork/$dir/out/$k
+name=$id-s${dir:3}$k
 dst=$(dirname "$0")/../seeded/$name
 dst=$(readlink -f "$dst" || echo "$dst")
 demo=demo.rs; [ -d "$src/demo" ] && demo=demo
